@@ -264,7 +264,9 @@ def plan_C18(ctx):
 SCHEMA_RULE = ("A: every history of <= MaxLen public mutator calls of RSForm generated by TLC from Schema.tla (Gen_Schema presets: "
                "'ids' all operations with colliding / ill-formed aliases and identifiers; 'deps' definitions creating, breaking and "
                "cycling dependencies; 'kinds' every constituent kind incl. functions, calls, axioms, structures, ill-typed / unparsable / "
-               "dangling definitions; 'names' renamings with prefix names, chains and mentions in definitions, conventions, references), "
+               "dangling definitions; 'names' renamings with prefix names, chains and mentions in definitions, conventions, references; "
+               "'texts' X1, D1, D2 created by script, then every sequence of SetTerm / SetText / SetAlias-with-substitution / Erase that builds, re-points, renames and "
+               "breaks chains of references term <- term <- definition text), "
                "replayed on a real RSForm with the identifier hook; after the last call the projected state is compared with the "
                "specification's content and from-scratch Analysis, with a copy reloaded from JSON, and the C09 invariants are evaluated "
                "after every call. non-trivial = history of >= 2 calls; distinct = distinct history. ")
@@ -295,7 +297,7 @@ def plan_C09(ctx):
 def plan_C07(ctx):
     ctx.assumptions = ["from-scratch analysis is (i) Schema.tla's Analysis (least fixpoint over RSTyping) and (ii) a copy reloaded from the saved document",
                        "resolved term / definition texts are compared only when term references are acyclic"]
-    schema_plan(ctx, ["C07"], ["7a", "7b", "9", "8"], trace=True)
+    schema_plan(ctx, ["C07"], ["7a", "7b", "7t", "9", "8"], trace=True)
 
 
 def plan_C08(ctx):
@@ -415,13 +417,14 @@ def plan_C19(ctx):
 MODEL_RULE = ("A: every history of <= MaxLen calls of AddBasicElement / SetBasicText (incl. same-size replacements with other keys) / "
               "SetStructureData / ResetDataFor / SetExpressionFor / Erase / Emplace / Calculate / RecalculateAll from a start model "
               "(X1 = {1,2}, D1 := X1, D2 := D1; 'struct' preset adds S1 : B(X1*X1) with data and projections of it; 'late' preset starts with "
-              "D1 := X2 while the base set X2 does not exist and inserts / erases base sets during the history; 'func' preset has a term-function "
+              "D1 := X2 while the base set X2 does not exist and inserts / erases base sets during the history; 'lates' preset adds to that a structure "
+              "S1 : B(X2) created before or after X2, given data, with X2 erased and created again; 'func' preset has a term-function "
               "F1 whose body is edited while terms calling it directly and through another term are calculated), generated by TLC from "
               "Model.tla with the predicted content and Fresh (what recalculating everything would show); replayed on a real RSModel. "
               "non-trivial = history of >= 2 calls. ")
 
 
-def model_stage(ctx, props, presets=("", "s", "l", "f")):
+def model_stage(ctx, props, presets=("", "s", "l", "ls", "f")):
     b = vcore.build()
     h = hbin(b, "h_model")
     for pr in presets:
@@ -446,9 +449,9 @@ def plan_C11(ctx):
 
 def plan_C10(ctx):
     ctx.assumptions = ["known findings K2 (cyclic term references) and K3 (non-contiguous interpretation keys) are reported as KNOWN-FINDING"]
-    schema_plan(ctx, ["C10"], ["9", "7b", "8"])
+    schema_plan(ctx, ["C10"], ["9", "7b", "7t", "8"])
     ctx.rule = SCHEMA_RULE + " Models: " + MODEL_RULE
-    model_stage(ctx, ["C10"], presets=("", "s"))
+    model_stage(ctx, ["C10"], presets=("", "s", "ls"))
     # values of any typification are stored in the document in the compact encoding: its round trip (Gen_C16's typifications x values)
     # is the value part of "save / load is lossless"
     ctx.rule += (" Values: every (typification, value) pair of Gen_C16 must survive the compact encoding the document stores values in "
